@@ -5,7 +5,7 @@ The simulation statement `SimF` (as `SimC`, with the id map `m` that may be exte
 result related through `tr`), and the segment lemma for the fragment `Ff` by induction on the
 reference evaluator's fuel.
 -/
-import ZygoVerif.Proofs.SimF2Env
+import ZygoVerif.Proofs.SimF2Gen
 set_option linter.unusedSimpArgs false
 set_option linter.unusedVariables false
 namespace ZygoVerif.Sim
@@ -60,7 +60,7 @@ theorem simF_sym {m : Nat → Nat} {s : St} {rs : Ref.St} {env : Nat} {pre post 
     exact ⟨s.jmp (s.pc + 1) (some v :: s.data), m, v,
       (Reach.step h.head (fun f => by rw [exec_envToStack, hv])).toX,
       ⟨rfl, by simp, rfl⟩, rfl, hrel.jmp _ _, MExt.refl s m, RExt.refl rs, FrameF.jmp _ _ _,
-      VOk.ext ((hrel.vok id x v (lexLookup_sound hv)).ok hx) (Frame.jmp _ _ _) (RExt.refl rs) (MExt.refl s m)⟩
+      VOk.ext ((hrel.vok id x v (lexLookup_sound hv)).ok hx) (FrameF.jmp _ _ _) (RExt.refl rs) (MExt.refl s m)⟩
 
 /-! ## `def`, `set` -/
 
@@ -90,7 +90,7 @@ theorem psp_stepF {m : Nat → Nat} {s₁ : St} {rs₁ : Ref.St} {env : Nat} {P 
         ∧ RelF m ((s₁.jmp (s₁.pc + 1) D).bind env x v) (Ref.setVar rs₁ env x (trf m v)) env
         ∧ RExt rs₁ (Ref.setVar rs₁ env x (trf m v)) := fun hb' =>
     ⟨Reach.step a (fun f => (hx' f).trans hb'),
-      (rel1.jmp _ _).bind env hlt hx (VOk.ext hcv (Frame.jmp _ _ _) (RExt.refl _) (MExt.refl _ _)),
+      (rel1.jmp _ _).bind env hlt hx (VOk.ext hcv (FrameF.jmp _ _ _) (RExt.refl _) (MExt.refl _ _)),
       FramesExt.setVar _ _ _ _, fun i c hc => by rw [setVar_clos]; exact hc⟩
   have herr : (bindTop x v).run (s₁.jmp (s₁.pc + 1) D) = (.error .err, s₁.jmp (s₁.pc + 1) D) →
       Fails 1 s₁ rs₁.trace := fun hb' => by
@@ -123,7 +123,7 @@ theorem simF_def_tail {m m₁ : Nat → Nat} {s s₁ : St} {rs rs₁ : Ref.St} {
   obtain ⟨r2, a3⟩ := glue_dup h l1
   have hlen : (ce ++ [Instr.dup, Instr.popStackPutEnv x]).length = ce.length + 1 + 1 := by simp
   have hp := psp_stepF a3 (D := some v :: s.data) rfl (rel1.jmp _ _) hx
-    (VOk.ext hcv (Frame.jmp _ _ _) (RExt.refl _) (MExt.refl _ _))
+    (VOk.ext hcv (FrameF.jmp _ _ _) (RExt.refl _) (MExt.refl _ _))
   cases hdef : Ref.define rs₁ env x (trf m₁ v) with
   | none =>
     rw [hdef] at hp
@@ -137,7 +137,7 @@ theorem simF_def_tail {m m₁ : Nat → Nat} {s s₁ : St} {rs rs₁ : Ref.St} {
         ((s₁.jmp (s₁.pc + 1) (some v :: some v :: s.data)).pc + 1) (some v :: s.data))).bind env x v) :=
       (FrameF.jmp _ _ _).trans ((FrameF.jmp _ _ _).trans (FrameF.bind _ _ _ _))
     refine ⟨_, m₁, v, ((r1.trans r2.toX).trans r3.toX), ⟨l1.fn, ?_, rfl⟩, rfl, rel3, hm1,
-      ext1.trans ext3, fr1.trans hfr3, VOk.ext hcv hfr3.toFrame ext3 (MExt.refl _ _)⟩
+      ext1.trans ext3, fr1.trans hfr3, VOk.ext hcv hfr3 ext3 (MExt.refl _ _)⟩
     show s₁.pc + 1 + 1 = _
     rw [l1.pc, hlen]; push_cast; omega
 
@@ -185,8 +185,8 @@ theorem simF_set_tail {m m₁ : Nat → Nat} {s s₁ : St} {rs rs₁ : Ref.St} {
     have hext3 : RExt rs₁ (Ref.setVar rs₁ id x (trf m₁ v)) :=
       ⟨FramesExt.setVar _ _ _ _, fun i c hc => by rw [setVar_clos]; exact hc⟩
     refine ⟨(s₁.jmp (s₁.pc + 1 + 1) (some v :: s.data)).bind id x v, m₁, v, ?_, ⟨l1.fn, ?_, rfl⟩, rfl,
-      (rel1.jmp _ _).bind id hid hxb (VOk.ext hcv (Frame.jmp _ _ _) (RExt.refl _) (MExt.refl _ _)), hm1,
-      ext1.trans hext3, fr1.trans hfr3, VOk.ext hcv hfr3.toFrame hext3 (MExt.refl _ _)⟩
+      (rel1.jmp _ _).bind id hid hxb (VOk.ext hcv (FrameF.jmp _ _ _) (RExt.refl _) (MExt.refl _ _)), hm1,
+      ext1.trans hext3, fr1.trans hfr3, VOk.ext hcv hfr3 hext3 (MExt.refl _ _)⟩
     · exact ((r1.trans r2.toX).trans (Reach.step a3 hx').toX)
     · show s₁.pc + 1 + 1 = _
       rw [l1.pc, hlen]; push_cast; omega
@@ -262,130 +262,31 @@ theorem SimF.cond_exit {p b rest pre post : List Instr} {m m₁ : Nat → Nat} {
     obtain ⟨r3, l3⟩ := glue_cond_exit h l2
     exact ⟨_, m₂, w, ((hreach.trans r).trans r3.toX), l3, hv, rel.jmp _ _, hm.trans hm2 hframe.fnsLen, hext.trans ext,
       (hframe.trans fr).trans (FrameF.jmp _ _ _),
-      VOk.ext hcl (Frame.jmp _ _ _) (RExt.refl _) (MExt.refl _ _)⟩
+      VOk.ext hcl (FrameF.jmp _ _ _) (RExt.refl _) (MExt.refl _ _)⟩
   | err rs' => exact (FailsX.of_reach hreach h₂)
   | timeout => trivial
   | brk l rs' => exact h₂
   | cont l rs' => exact h₂
 
-/-! ## `compile` on Ff: total, generator state untouched, code never empty -/
-
-theorem ff_call_ne {self h : String} {c : Ctx} (hc : c.funcname = self ∨ c.funcname = "")
-    (h1 : (h != self) = true) (h2 : (h != "") = true) : (h == c.funcname) = false := by
-  rcases hc with hc | hc <;> rw [hc]
-  · simpa using h1
-  · simpa using h2
-
-mutual
-theorem compile_total_Ff : ∀ (self : String) (e : Expr), Ff self e = true → ∀ isFn c gs,
-    (c.funcname = self ∨ c.funcname = "") →
-    ∃ code t, (compile isFn c e).run gs = .ok ((code, t), gs) ∧ code ≠ []
-  | _, .int v, _, isFn, c, gs, hfn => ⟨_, _, by rw [compile]; rfl, by simp⟩
-  | _, .bool v, _, isFn, c, gs, hfn => ⟨_, _, by rw [compile]; rfl, by simp⟩
-  | _, .str v, _, isFn, c, gs, hfn => ⟨_, _, by rw [compile]; rfl, by simp⟩
-  | _, .nilLit, _, isFn, c, gs, hfn => ⟨_, _, by rw [compile]; rfl, by simp⟩
-  | _, .sym x, _, isFn, c, gs, hfn => ⟨_, _, by rw [compile]; rfl, by simp⟩
-  | self, .begin_ es, he, isFn, c, gs, hfn => by
-    rw [Ff] at he
-    cases es with
-    | nil => exact ⟨[.push .nil], c.tail, by rw [compile]; rfl, by simp⟩
-    | cons e0 es0 =>
-      rw [compile]
-      · exact compileBegin_total_Ff self (e0 :: es0) (by simp) he isFn c gs hfn
-      · intro hh; cases hh
-  | self, .def_ x e, he, isFn, c, gs, hfn => by
-    rw [Ff] at he
-    simp only [Bool.and_eq_true] at he
-    obtain ⟨ce, t, h1, _⟩ := compile_total_Ff self e he.2 isFn { c with tail := false } gs hfn
-    refine ⟨ce ++ [.dup, .popStackPutEnv x], false, ?_, by simp⟩
-    rw [compile]
-    simp only [g_bind_ok, g_pure_ok]
-    exact ⟨_, _, h1, rfl⟩
-  | self, .set_ x e, he, isFn, c, gs, hfn => by
-    rw [Ff] at he
-    simp only [Bool.and_eq_true] at he
-    obtain ⟨ce, t, h1, _⟩ := compile_total_Ff self e he.2 isFn { c with tail := false } gs hfn
-    refine ⟨ce ++ [.dup, .update x], false, ?_, by simp⟩
-    rw [compile]
-    simp only [g_bind_ok, g_pure_ok]
-    exact ⟨_, _, h1, rfl⟩
-  | self, .cond arms d, he, isFn, c, gs, hfn => by
-    rw [Ff] at he
-    simp only [Bool.and_eq_true] at he
-    obtain ⟨dc, t, hd, hdne⟩ := compile_total_Ff self d he.2 isFn c gs hfn
-    obtain ⟨as, has⟩ := compileArms_total_Ff self arms he.1 isFn c gs hfn
-    refine ⟨asmCond as dc, c.tail, ?_, asmCond_ne_nil as dc hdne⟩
-    rw [compile]
-    simp only [g_bind_ok, g_pure_ok]
-    exact ⟨_, _, hd, _, _, has, rfl⟩
-  | self, .call f args, he, isFn, c, gs, hfn => by
-    cases f with
-    | sym h =>
-      rw [Ff] at he
-      simp only [Bool.and_eq_true] at he
-      refine ⟨[.callExpr (.sym h) args], c.tail, ?_, by simp⟩
-      rw [compile]
-      have hne := ff_call_ne hfn he.1.1.1 he.1.1.2
-      simp only [hne, Bool.and_false, Bool.false_eq_true, if_false]
-      rfl
-    | _ => simp [Ff] at he
-  | _, .and_ _, he, _, _, _, _ | _, .or_ _, he, _, _, _, _ | _, .let_ _ _ _, he, _, _, _, _
-  | _, .newScope _, he, _, _, _, _ | _, .arr _, he, _, _, _, _ | _, .for_ _ _ _ _ _, he, _, _, _, _
-  | _, .break_ _, he, _, _, _, _ | _, .continue_ _, he, _, _, _, _
-  | _, .fn _ _ _, he, _, _, _, _ | _, .defn _ _ _ _, he, _, _, _, _ | _, .assign _ _, he, _, _, _, _
-  | _, .bad _, he, _, _, _, _ => by
-    simp [Ff] at he
-theorem compileBegin_total_Ff : ∀ (self : String) (es : List Expr), es ≠ [] → FfList self es = true → ∀ isFn c gs,
-    (c.funcname = self ∨ c.funcname = "") →
-    ∃ code t, (compileBegin isFn c es).run gs = .ok ((code, t), gs) ∧ code ≠ []
-  | _, [], hne, _, _, _, _, _ => absurd rfl hne
-  | self, [e], _, he, isFn, c, gs, hfn => by
-    rw [FfList] at he
-    simp only [Bool.and_eq_true] at he
-    rw [compileBegin]
-    exact compile_total_Ff self e he.1 isFn c gs hfn
-  | self, e :: e' :: es, _, he, isFn, c, gs, hfn => by
-    rw [FfList] at he
-    simp only [Bool.and_eq_true] at he
-    obtain ⟨a, ta, ha, hane⟩ := compile_total_Ff self e he.1 isFn { c with tail := false } gs hfn
-    obtain ⟨b, tb, hb, _⟩ := compileBegin_total_Ff self (e' :: es) (by simp) he.2 isFn c gs hfn
-    refine ⟨a ++ (if a.isEmpty then [] else [.pop]) ++ b, tb, ?_, by simp [hane]⟩
-    rw [compileBegin]
-    · simp only [g_bind_ok, g_pure_ok]
-      exact ⟨_, _, ha, _, _, hb, rfl⟩
-    · intro hh; cases hh
-theorem compileArms_total_Ff : ∀ (self : String) (arms : List (Expr × Expr)), FfArms self arms = true → ∀ isFn c gs,
-    (c.funcname = self ∨ c.funcname = "") →
-    ∃ as, (compileArms isFn c arms).run gs = .ok (as, gs)
-  | _, [], _, isFn, c, gs, hfn => ⟨[], by rw [compileArms]; rfl⟩
-  | self, (p, b) :: arms, he, isFn, c, gs, hfn => by
-    rw [FfArms] at he
-    simp only [Bool.and_eq_true] at he
-    obtain ⟨r, hr⟩ := compileArms_total_Ff self arms he.2 isFn c gs hfn
-    obtain ⟨pc, _, hp, _⟩ := compile_total_Ff self p he.1.1 isFn { c with tail := false } gs hfn
-    obtain ⟨bc, _, hb, _⟩ := compile_total_Ff self b he.1.2 isFn c gs hfn
-    refine ⟨(pc, bc) :: r, ?_⟩
-    rw [compileArms]
-    simp only [g_bind_ok, g_pure_ok]
-    exact ⟨_, _, hr, _, _, hp, _, _, hb, rfl⟩
-end
-
 /-! ## The claims -/
 
 def FClaimE (n : Nat) : Prop :=
-  ∀ self e, Ff self e = true → ∀ isFn c gs r, (compile isFn c e).run gs = .ok r → (c.funcname = self ∨ c.funcname = "") →
-    ∀ m s rs env pre post, RelF m s rs env → Seg s pre r.1.1 post → SimF r.1.1 m s rs env (Ref.eval n e env rs)
+  ∀ fnOk self e, Ff fnOk self e = true → ∀ isFn c gs r, (compile isFn c e).run gs = .ok r → FnameOk self c →
+    ∀ m s rs env pre post, RelF m s rs env → (fnOk = true → GenOk gs r.2 s) → Seg s pre r.1.1 post →
+      SimF r.1.1 m s rs env (Ref.eval n e env rs)
 
 def FClaimB (n : Nat) : Prop :=
-  ∀ self es, es ≠ [] → FfList self es = true → ∀ isFn c gs r, (compileBegin isFn c es).run gs = .ok r →
-    (c.funcname = self ∨ c.funcname = "") →
-    ∀ m s rs env pre post, RelF m s rs env → Seg s pre r.1.1 post → SimF r.1.1 m s rs env (Ref.evalBegin n es env rs)
+  ∀ fnOk self es, es ≠ [] → FfList fnOk self es = true → ∀ isFn c gs r, (compileBegin isFn c es).run gs = .ok r →
+    FnameOk self c →
+    ∀ m s rs env pre post, RelF m s rs env → (fnOk = true → GenOk gs r.2 s) → Seg s pre r.1.1 post →
+      SimF r.1.1 m s rs env (Ref.evalBegin n es env rs)
 
 def FClaimC (n : Nat) : Prop :=
-  ∀ self arms d, FfArms self arms = true → Ff self d = true → ∀ isFn c gs r gs0 rd,
+  ∀ fnOk self arms d, FfArms fnOk self arms = true → Ff fnOk self d = true → ∀ isFn c gs r gs0 rd,
     (compileArms isFn c arms).run gs = .ok r → (compile isFn c d).run gs0 = .ok rd →
-    (c.funcname = self ∨ c.funcname = "") →
-    ∀ m s rs env pre post, RelF m s rs env → Seg s pre (asmCond r.1 rd.1.1) post →
+    FnameOk self c →
+    ∀ m s rs env pre post, RelF m s rs env → (fnOk = true → GenOk gs r.2 s) → (fnOk = true → GenOk gs0 rd.2 s) →
+      Seg s pre (asmCond r.1 rd.1.1) post →
       SimF (asmCond r.1 rd.1.1) m s rs env (Ref.evalCond n arms d env rs)
 
 /-- `EvalCallExpression` against `Ref.eval`: the value, control state as before, related states -/
@@ -431,16 +332,18 @@ theorem evalCallExpr_sym_simF (x : String) (hx : okSym x = true) (n : Nat) {m : 
       rw [hrun, hv]
 
 /-- an operand that is not a symbol, given the segment lemma for it at the same reference fuel -/
-theorem evalCallExpr_nonsym_simF {n : Nat} (hE : FClaimE n) (e : Expr) (he : Ff "" e = true) (hns : ∀ x, e ≠ .sym x)
+theorem evalCallExpr_nonsym_simF {n : Nat} (hE : FClaimE n) (e : Expr) (he : Ff false "" e = true) (hns : ∀ x, e ≠ .sym x)
     {m : Nat → Nat} {s : St} {rs : Ref.St} {env : Nat} (hrel : RelF m s rs env) :
     EvalOkF e m s rs env (Ref.eval n e env rs) := by
-  obtain ⟨code, t, hc, hne⟩ := compile_total_Ff "" e he (isFnScope s) {}
+  obtain ⟨code, t, gs', hc, hne, hk⟩ := compile_total_Ff false "" e he (isFnScope s) {}
     { fns := s.fns, loops := s.loops, loopstack := s.loopstack, live := s.linear } (Or.inl rfl)
+  have hgs := hk.2 rfl
+  subst hgs
   have hgen : (runGen (compile (isFnScope s) {} e)).run s = (.ok (code, t), s) :=
     run_runGen_any _ s _ _ hc rfl
   have hseg := seg_inHelper s code
-  have hsim := hE "" e he (isFnScope s) {} _ ((code, t), _) hc (Or.inl rfl) m (inHelper s code) rs env [] [.ret]
-    (relF_inHelper hrel code) hseg
+  have hsim := hE false "" e he (isFnScope s) {} _ ((code, t), _) hc (Or.inl rfl) m (inHelper s code) rs env [] [.ret]
+    (relF_inHelper hrel code) (fun h => by cases h) hseg
   have hunf := fun fuel => evalCallExpr_nonsym fuel e hns s s code t hgen hne
   cases hres : Ref.eval n e env rs with
   | ok v' rs' =>
@@ -466,7 +369,7 @@ theorem evalCallExpr_nonsym_simF {n : Nat} (hE : FClaimE n) (e : Expr) (he : Ff 
       simp only [hbal]
       rfl
     · exact hrel.back rel4 rfl rfl rfl rfl fr4.linear rfl fr4.flags hfl hfo ext4.1
-    · exact ValIn.mono hcl4 (fun id hg => hg.mono (Nat.le_refl _) (fun _ _ => rfl) (ClosExt.refl _) rfl)
+    · exact ValIn.mono hcl4 (fun id hg => hg.mono (FnsKeep.of_fns_eq rfl) (Nat.le_refl _) (fun _ _ => rfl) (RExt.refl _) rfl)
   | err rs' =>
     rw [hres] at hsim
     obtain ⟨M, hM⟩ := run_of_failsE hsim
@@ -479,7 +382,7 @@ theorem evalCallExpr_nonsym_simF {n : Nat} (hE : FClaimE n) (e : Expr) (he : Ff 
   | brk l rs' => rw [hres] at hsim; exact hsim
   | cont l rs' => rw [hres] at hsim; exact hsim
 
-theorem evalCallExpr_simF {n : Nat} (hE : FClaimE n) (e : Expr) (he : Ff "" e = true)
+theorem evalCallExpr_simF {n : Nat} (hE : FClaimE n) (e : Expr) (he : Ff false "" e = true)
     {m : Nat → Nat} {s : St} {rs : Ref.St} {env : Nat} (hrel : RelF m s rs env) :
     EvalOkF e m s rs env (Ref.eval n e env rs) := by
   cases e with
@@ -560,7 +463,7 @@ theorem fclaimA_succ {n : Nat} (hE : FClaimE n) (hA : FClaimA n) : FClaimA (n + 
         · rw [hd2]; show _ ++ (some v :: s1.data) = _; rw [hd1]; simp
         · rw [List.map_cons, hv12, hv1, hvs2]
         · rcases List.mem_cons.mp hw with rfl | hw
-          · exact VOk.ext hcl1 ((Frame.jmp _ _ _).trans fr2.toFrame) ext2 hm2
+          · exact VOk.ext hcl1 ((FrameF.jmp _ _ _).trans fr2) ext2 hm2
           · exact hcl2 w hw
       | err rs2 =>
         rw [h2] at ih
@@ -655,20 +558,20 @@ theorem okParam_name {p : String} (h : okParam p = true) : okName p = true := by
 
 theorem fclaimU_succ {n : Nat} (hB : FClaimB n) : FClaimU (n + 1) := by
   intro m s₁ rs₁ env vid vs D hrel hg hd hvs hlen
-  obtain ⟨c, hc1, henv, hrest, hnd, hokp, hbody, hparams, hnargs, hvar, huser, hclo, ⟨p, hp1, hp2, hp3⟩,
-    t, b, tl, isFn, cb, gs0, gs1, self, hcode, htlt, htclo, hcomp, hsc0, hfname, hff⟩ := hg.clo
+  obtain ⟨c, hc1, hrest, hnd, hokp, hbody, hparams, hnargs, hvar, huser, hel, _,
+    t, b, tl, isFn, cb, gs0, gs1, self, hcode, htlt, htclo, hcomp, hsc0, hfname, hff, hgen⟩ := hg.clo
   have hvl : vs.length = c.ps.length := by rw [hlen, hnargs]
   -- the reference side
   rw [Ref.applyFn]
-  simp only [hc1, Ref.bindParams, hrest, List.length_map, hvl, if_true, henv]
+  simp only [hc1, Ref.bindParams, hrest, List.length_map, hvl, if_true]
   -- the reference state at the start of the body
-  have hnf : (Ref.newFrame rs₁ 0) = (rs₁.frames.length, { rs₁ with frames := rs₁.frames ++ [{ parent := some 0 }] }) := rfl
+  have hnf : (Ref.newFrame rs₁ c.env) = (rs₁.frames.length, { rs₁ with frames := rs₁.frames ++ [{ parent := some c.env }] }) := rfl
   have hfold := foldl_setVar rs₁.frames.length (c.ps.zip (vs.map (trf m)))
-    { rs₁ with frames := rs₁.frames ++ [{ parent := some 0 }] } { parent := some 0 }
+    { rs₁ with frames := rs₁.frames ++ [{ parent := some c.env }] } { parent := some c.env }
     (by show (rs₁.frames ++ [_])[rs₁.frames.length]? = _; simp)
   generalize hrsB : (c.ps.zip (vs.map (trf m))).foldl (fun s (p : String × Val) => Ref.setVar s rs₁.frames.length p.1 p.2)
-    { rs₁ with frames := rs₁.frames ++ [{ parent := some 0 }] } = rsB at hfold
-  have hfrB : rsB.frames = rs₁.frames ++ [({ vars := bindsVars [] (c.ps.zip (vs.map (trf m))), parent := some 0 } : Ref.Frame)] := by
+    { rs₁ with frames := rs₁.frames ++ [{ parent := some c.env }] } = rsB at hfold
+  have hfrB : rsB.frames = rs₁.frames ++ [({ vars := bindsVars [] (c.ps.zip (vs.map (trf m))), parent := some c.env } : Ref.Frame)] := by
     rw [hfold]; show (rs₁.frames ++ [_]).set rs₁.frames.length _ = _
     simp
   have hclB : rsB.clos = rs₁.clos := by rw [hfold]
@@ -676,7 +579,7 @@ theorem fclaimU_succ {n : Nat} (hB : FClaimB n) : FClaimU (n + 1) := by
   have htrB : rsB.trace = rs₁.trace := by rw [hfold]
   show (match (match Ref.evalBegin n c.body rs₁.frames.length
         ((c.ps.zip (vs.map (trf m))).foldl (fun s (p : String × Val) => Ref.setVar s rs₁.frames.length p.1 p.2)
-          { rs₁ with frames := rs₁.frames ++ [{ parent := some 0 }] }) with
+          { rs₁ with frames := rs₁.frames ++ [{ parent := some c.env }] }) with
       | .ok v s => Ref.R.ok v s | .brk _ s => .err s | .cont _ s => .err s | r => r) with
     | .ok v' rs' => _ | .err rs' => _ | .timeout => _ | .brk _ _ => _ | .cont _ _ => _)
   rw [hrsB]
@@ -728,7 +631,7 @@ theorem fclaimU_succ {n : Nat} (hB : FClaimB n) : FClaimU (n + 1) := by
   have hndz' : ((c.ps.zip (vs.map (trf m))).map (·.1)).Nodup := by
     rw [List.map_fst_zip (by simp; omega)]; exact hnd
   have relB : RelF m s₄ rsB rs₁.frames.length := by
-    refine hrel.enter hg s₄ rsB t _ _ hsc4 hlin4 hfns4 hcur4 (by subst hs4; subst hs3; rfl) (by subst hs4; subst hs3; rfl)
+    refine hrel.enter hg (fun c' hc' => by rw [hc1] at hc'; injection hc' with hc'; rw [hc']) s₄ rsB t _ _ hsc4 hlin4 hfns4 hcur4 (by subst hs4; subst hs3; rfl) (by subst hs4; subst hs3; rfl)
       hfrB hclB hhpB htrB htclo (fun y => ?_) (fun y v hv => ?_) (fun h hh => ?_)
     · rw [lookup_bindsVars, lookup_bindsVars, List.reverse_reverse, lookup_reverse_of_nodup _ hndz', lookup_zip_map]
       cases (c.ps.zip vs).lookup y <;> rfl
@@ -747,7 +650,8 @@ theorem fclaimU_succ {n : Nat} (hB : FClaimB n) : FClaimU (n + 1) := by
   have hseg4 : Seg s₄ ([.addFuncScope t] ++ (c.ps.map Instr.popStackPutEnv).reverse) b [.removeScope, .ret] :=
     ⟨by rw [hcur4]; unfold fnOf; rw [hfns4]; exact huser, by rw [hcur4]; show (fnOf s₄ vid).code = _; unfold fnOf; rw [hfns4]; exact hcode.trans (by simp [fnCode]),
       by rw [hpc4]; simp; omega⟩
-  have hsim := hB self c.body hbody hff isFn cb gs0 ((b, tl), gs1) hcomp hfname m s₄ rsB rs₁.frames.length _ _ relB hseg4
+  have hsim := hB true self c.body hbody hff isFn cb gs0 ((b, tl), gs1) hcomp hfname m s₄ rsB rs₁.frames.length _ _ relB
+    (fun _ => hgen.mono (FnsKeep.of_fns_eq hfns4)) hseg4
   have hreach4 : ReachX (entered s₁ vid) s₄ := r2.trans r4
   cases hres : Ref.evalBegin n c.body rs₁.frames.length rsB with
   | ok v' rs' =>
@@ -789,7 +693,7 @@ theorem fclaimU_succ {n : Nat} (hB : FClaimB n) : FClaimU (n + 1) := by
         by show s₁.loops.length ≤ s₅.loops.length; rw [← hloops4]; exact fr5.loopsLen,
         fun id hid => by show s₅.loops.getD id {} = _; rw [← hloops4]; exact fr5.loops id (by rw [hloops4]; exact hid)⟩,
         Nat.le_trans hscl14 fr5.scLen, hflags⟩
-    · exact ValIn.mono hcl5 (fun id hgd => hgd.mono (Nat.le_refl _) (fun _ _ => rfl) (ClosExt.refl _) rfl)
+    · exact ValIn.mono hcl5 (fun id hgd => hgd.mono (FnsKeep.of_fns_eq rfl) (Nat.le_refl _) (fun _ _ => rfl) (RExt.refl _) rfl)
   | err rs' =>
     rw [hres] at hsim
     simp only
@@ -899,7 +803,7 @@ theorem simF_call_fn {k : Nat} (hA : FClaimA (k + 1)) (hU : FClaimU (k + 1)) {h 
     (hrel : RelF m s rs env) (hseg : Seg s pre [.callExpr (.sym h) args] post)
     (hl : lexLookup s h = some (i, .fn vid)) (hg : GoodFn m s rs vid) :
     SimF [.callExpr (.sym h) args] m s rs env (refCall k (.fn (m vid)) args env rs) := by
-  obtain ⟨c, hc1, henv, hrest, hnd, hokp, hbody, hparams, hnargs, hvar, huser, hclo, _, _⟩ := hg.clo
+  obtain ⟨c, hc1, hrest, hnd, hokp, hbody, hparams, hnargs, hvar, huser, _, _, _⟩ := hg.clo
   rw [refCall_fn k (m vid) args env rs c hc1 hokp]
   have hfo : NoLazy (some (fnOf s vid)) := by
     intro f hf
@@ -926,7 +830,7 @@ theorem simF_call_fn {k : Nat} (hA : FClaimA (k + 1)) (hU : FClaimU (k + 1)) {h 
       rw [← ref_evalArgs_length _ _ _ _ _ _ _ h1, hvs, List.length_map]
     have hfo1 : fnOf s1 vid = fnOf s vid := fr1.fns vid hg.lt
     have hcf := run_callFunction_fixed vid vs s.data s1 hd1 (by rw [hfo1]; exact hvar)
-    have hg1 : GoodFn m1 s1 rs1 vid := hg.ext fr1.toFrame ext1 hm1
+    have hg1 : GoodFn m1 s1 rs1 vid := hg.ext fr1 ext1 hm1
     have hmv : m1 vid = m vid := hm1 vid hg.lt
     by_cases har : vs.length = (fnOf s1 vid).nargs
     · -- control enters the callee
@@ -1031,7 +935,8 @@ theorem simF_call_builtin {k : Nat} (hA : FClaimA (k + 1)) {h name : String} (hn
         hm1, ext1.trans hrext,
         fr1.trans ⟨hfrF, by show s1.scopes.length ≤ s3.scopes.length; rw [hsc]; exact Nat.le_refl _,
           fun i _ => by unfold isFnScope scopeOf; show (s3.scopes.getD i {}).isFunction = _; rw [hsc]⟩,
-        VOk.ext hvok hfrF hrext (MExt.refl _ _)⟩
+        VOk.ext hvok ⟨hfrF, by show s1.scopes.length ≤ s3.scopes.length; rw [hsc]; exact Nat.le_refl _,
+          fun i _ => by unfold isFnScope scopeOf; show (s3.scopes.getD i {}).isFunction = _; rw [hsc]⟩ hrext (MExt.refl _ _)⟩
     by_cases ht : name = "trace"
     · simp only [ht, if_true]
       rw [ht] at hok
@@ -1134,7 +1039,7 @@ theorem simF_call_other {k : Nat} {h : String} {args : List Expr} {m : Nat → N
   · simp only [he, if_true] at hexec ⊢
     refine ⟨s.jmp (s.pc + 1) (some fv :: s.data), m, fv, ReachX.step hseg.head 2 (fun f hf => ?_), ⟨rfl, by simp, rfl⟩,
       rfl, hrel.jmp _ _, MExt.refl s m, RExt.refl rs, FrameF.jmp _ _ _,
-      VOk.ext hv (Frame.jmp _ _ _) (RExt.refl rs) (MExt.refl s m)⟩
+      VOk.ext hv (FrameF.jmp _ _ _) (RExt.refl rs) (MExt.refl s m)⟩
     obtain ⟨F, rfl⟩ : ∃ F, f = F + 2 := ⟨f - 2, by omega⟩
     exact hexec F
   · simp only [he, Bool.false_eq_true, if_false] at hexec ⊢
@@ -1179,41 +1084,37 @@ theorem simF_call {k : Nat} (hA : FClaimA (k + 1)) (hU : FClaimU (k + 1)) {h : S
 
 /-! ## The inductive steps -/
 
-theorem compile_ne_nil_Ff {self : String} {e : Expr} (he : Ff self e = true) {isFn c gs r}
-    (h : (compile isFn c e).run gs = .ok r) (hfn : c.funcname = self ∨ c.funcname = "") : r.1.1 ≠ [] := by
-  obtain ⟨code, t, h1, hne⟩ := compile_total_Ff self e he isFn c gs hfn
-  rw [h1] at h
-  injection h with h
-  subst h
-  exact hne
-
 theorem fclaimB_succ {n : Nat} (hE : FClaimE n) (hB : FClaimB n) : FClaimB (n + 1) := by
-  intro self es hne hes isFn c gs r hc hfn m s rs env pre post hrel hseg
+  intro fnOk self es hne hes isFn c gs r hc hfn m s rs env pre post hrel hgen hseg
   match es, hne with
   | [e], _ =>
     rw [FfList] at hes
     simp only [Bool.and_eq_true] at hes
     rw [compileBegin] at hc
     rw [Ref.evalBegin]
-    exact hE self e hes.1 isFn c gs r hc hfn m s rs env pre post hrel hseg
+    exact hE fnOk self e hes.1 isFn c gs r hc hfn m s rs env pre post hrel hgen hseg
   | e :: e' :: es', _ =>
     rw [FfList] at hes
     simp only [Bool.and_eq_true] at hes
     rw [compileBegin] at hc
     · simp only [g_bind_ok, g_pure_ok] at hc
       obtain ⟨ra, gs1, ha, rb, gs2, hb, rfl⟩ := hc
+      have hk1 := compile_keep_Ff hes.1 ha hfn
+      have hk2 := compileBegin_keep_Ff (by simp) hes.2 hb hfn
       have hane : ra.1.isEmpty = false := by
         simpa [List.isEmpty_eq_false_iff] using compile_ne_nil_Ff hes.1 ha hfn
-      simp only [hane, Bool.false_eq_true, if_false] at hseg ⊢
+      simp only [hane, Bool.false_eq_true, if_false] at hseg hgen ⊢
       rw [Ref.evalBegin]
-      · have ih := hE self e hes.1 isFn _ gs (ra, gs1) ha hfn m s rs env pre ([.pop] ++ rb.1 ++ post) hrel
-          (hseg.refocus (by simp))
+      · have ih := hE fnOk self e hes.1 isFn _ gs (ra, gs1) ha hfn m s rs env pre ([.pop] ++ rb.1 ++ post) hrel
+          (fun h => (hgen h).first hk2.1) (hseg.refocus (by simp))
         cases h1 : Ref.eval n e env rs with
         | ok v1 rs1 =>
           rw [h1] at ih
           obtain ⟨s1, m1, w1, r1, l1, hv1, rel1, hm1, ext1, fr1, hcl1⟩ := ih
           obtain ⟨r2, m2⟩ := glue_pop hseg l1
-          have ih2 := hB self (e' :: es') (by simp) hes.2 isFn c gs1 (rb, gs2) hb hfn m1 _ rs1 env _ post (rel1.jmp _ _)
+          have ih2 := hB fnOk self (e' :: es') (by simp) hes.2 isFn c gs1 (rb, gs2) hb hfn m1
+            (s1.jmp (s1.pc + 1) s.data) rs1 env _ post (rel1.jmp _ _)
+            (fun h => ((hgen h).rest hk1.1).frame (fr1.toFrame.trans (Frame.jmp s1 (s1.pc + 1) s.data)))
             (hseg.moved m2 (c₁ := ra.1 ++ [.pop]) (c₂ := rb.1) (post' := post) rfl (by simp))
           exact SimF.seq (r1.trans r2.toX) m2 hm1 ext1 (fr1.trans (FrameF.jmp _ _ _)) ih2 (by lenarith)
         | err rs1 => rw [h1] at ih; exact SimF.prefix ih (fun _ _ hh => by cases hh)
@@ -1224,22 +1125,26 @@ theorem fclaimB_succ {n : Nat} (hE : FClaimE n) (hB : FClaimB n) : FClaimB (n + 
     · intro hh; cases hh
 
 theorem fclaimC_succ {n : Nat} (hE : FClaimE n) (hC : FClaimC n) : FClaimC (n + 1) := by
-  intro self arms d harms hd isFn c gs r gs0 rd hc hcd hfn m s rs env pre post hrel hseg
+  intro fnOk self arms d harms hd isFn c gs r gs0 rd hc hcd hfn m s rs env pre post hrel hgen hgend hseg
   match arms with
   | [] =>
     rw [compileArms] at hc; simp only [g_pure_ok] at hc; subst hc
     rw [Ref.evalCond]
     simp only [asmCond] at hseg ⊢
-    exact hE self d hd isFn c gs0 rd hcd hfn m s rs env pre post hrel hseg
+    exact hE fnOk self d hd isFn c gs0 rd hcd hfn m s rs env pre post hrel hgend hseg
   | (p, b) :: arms' =>
     rw [FfArms] at harms
     simp only [Bool.and_eq_true] at harms
     rw [compileArms] at hc
     simp only [g_bind_ok, g_pure_ok] at hc
     obtain ⟨rest, gs1, hrest, rp, gs2, hp, rb, gs3, hb, rfl⟩ := hc
+    have hk1 := compileArms_keep_Ff harms.2 hrest hfn
+    have hk2 := compile_keep_Ff harms.1.1 hp hfn
+    have hk3 := compile_keep_Ff harms.1.2 hb hfn
     rw [Ref.evalCond]
-    simp only [asmCond] at hseg ⊢
-    have ih := hE self p harms.1.1 isFn _ gs1 (rp, gs2) hp hfn m s rs env pre _ hrel (hseg.refocus (c' := rp.1)
+    simp only [asmCond] at hseg hgen ⊢
+    have ih := hE fnOk self p harms.1.1 isFn _ gs1 (rp, gs2) hp hfn m s rs env pre _ hrel
+      (fun h => ((hgen h).rest hk1.1).first hk3.1) (hseg.refocus (c' := rp.1)
       (post' := [.branch false (rb.1.length + 2)] ++ rb.1 ++ [.jump ((asmCond rest rd.1.1).length + 1)]
         ++ asmCond rest rd.1.1 ++ post) (by simp))
     cases h1 : Ref.eval n p env rs with
@@ -1251,14 +1156,20 @@ theorem fclaimC_succ {n : Nat} (hE : FClaimE n) (hC : FClaimC n) : FClaimC (n + 
       by_cases ht : truthy w1 = true
       · rw [htr, if_pos ht]
         obtain ⟨r2, m2⟩ := glue_brn_fall hseg l1 ht
-        have ih2 := hE self b harms.1.2 isFn c gs2 (rb, gs3) hb hfn m1 _ rs1 env _ _ (rel1.jmp _ _)
+        have ih2 := hE fnOk self b harms.1.2 isFn c gs2 (rb, gs3) hb hfn m1
+          (s1.jmp (s1.pc + 1) s.data) rs1 env _ _ (rel1.jmp _ _)
+          (fun h => ((hgen h).rest (hk1.1.trans hk2.1)).frame (fr1.toFrame.trans (Frame.jmp s1 (s1.pc + 1) s.data)))
           (hseg.moved m2 (c₁ := rp.1 ++ [.branch false (rb.1.length + 2)]) (c₂ := rb.1)
             (post' := [.jump ((asmCond rest rd.1.1).length + 1)] ++ asmCond rest rd.1.1 ++ post)
             (by simp) (by simp))
         exact SimF.cond_exit hseg (r1.trans r2.toX) m2 hm1 ext1 (fr1.trans (FrameF.jmp _ _ _)) ih2
       · rw [htr, if_neg ht]
         obtain ⟨r2, m2⟩ := glue_brn_taken hseg l1 (by simpa using ht)
-        have ih2 := hC self arms' d harms.2 hd isFn c gs (rest, gs1) gs0 rd hrest hcd hfn m1 _ rs1 env _ post (rel1.jmp _ _)
+        have ih2 := hC fnOk self arms' d harms.2 hd isFn c gs (rest, gs1) gs0 rd hrest hcd hfn m1
+          (s1.jmp (s1.pc + ((rb.1.length : Int) + 2)) s.data) rs1 env _ post (rel1.jmp _ _)
+          (fun h => ((hgen h).first (hk2.1.trans hk3.1)).frame
+            (fr1.toFrame.trans (Frame.jmp s1 (s1.pc + ((rb.1.length : Int) + 2)) s.data)))
+          (fun h => (hgend h).frame (fr1.toFrame.trans (Frame.jmp s1 (s1.pc + ((rb.1.length : Int) + 2)) s.data)))
           (hseg.moved m2 (c₁ := rp.1 ++ [.branch false (rb.1.length + 2)] ++ rb.1
               ++ [.jump ((asmCond rest rd.1.1).length + 1)]) (c₂ := asmCond rest rd.1.1) (post' := post)
             (by simp) (by lenarith))
@@ -1268,9 +1179,174 @@ theorem fclaimC_succ {n : Nat} (hE : FClaimE n) (hC : FClaimC n) : FClaimC (n + 
     | brk l rs1 => rw [h1] at ih; exact ih.elim
     | cont l rs1 => rw [h1] at ih; exact ih.elim
 
+/-! ## `fn`, `defn`: a closure is made -/
+
+/-- the template of a `fn`/`defn` in the running state, and what its body's compile left -/
+theorem tmpl_facts (isFn : Nat → Bool) (gs g₂ : GS) (fname : String) (ps : List String) (b : List Instr) (s : St)
+    (hk : KeepFns (gsAlloc isFn gs fname ps) g₂) (hgen : GenOk gs (gsFin g₂ gs.fns.length b) s) :
+    fnOf s gs.fns.length = { tmplOf isFn gs fname ps with code := fnCode gs.fns.length ps b }
+      ∧ gs.fns.length < s.fns.length ∧ GenOk (gsAlloc isFn gs fname ps) g₂ s := by
+  have hl2 : gs.fns.length + 1 ≤ g₂.fns.length := by have := hk.len; simpa [gsAlloc] using this
+  have hlf : (gsFin g₂ gs.fns.length b).fns.length = g₂.fns.length := by simp [gsFin]
+  have hlen := hgen.len
+  rw [hlf] at hlen
+  refine ⟨?_, by omega, ⟨hgen.live, by have := hgen.main; simp [gsAlloc]; omega, hlen, fun t h1 h2 => ?_⟩⟩
+  · rw [hgen.tmpl gs.fns.length (Nat.le_refl _) (by rw [hlf]; omega), gsFin_getD_self _ _ _ (by omega)]
+    exact finTmpl_eq isFn gs g₂ fname ps b hk
+  · have h1' : gs.fns.length + 1 ≤ t := by simpa [gsAlloc] using h1
+    rw [hgen.tmpl t (by omega) (by rw [hlf]; exact h2), gsFin_getD_other _ _ _ _ (by omega)]
+
+/-- `createClosure t`: the new function object is a good closure object for the reference closure
+just made; the relation holds with the id map extended by the new pair -/
+theorem closure_step {m : Nat → Nat} {s : St} {rs : Ref.St} {env : Nat} (hrel : RelF m s rs env) (t : Nat) (c : Ref.Clos)
+    (hcenv : c.env = env) (hrest : c.rest = none) (hnd : c.ps.Nodup)
+    (hps : ∀ p ∈ c.ps, okParam p = true) (hbody : c.body ≠ [])
+    (hparams : (fnOf s t).params = c.ps) (hnargs : (fnOf s t).nargs = c.ps.length) (hvar : (fnOf s t).varargs = false)
+    (huser : (fnOf s t).user = false) (htlt : t < s.fns.length) (htclo : (fnOf s t).closing = [some 0])
+    (hcode : ∃ b tl isFn cb gs0 gs1 self, (fnOf s t).code = fnCode t c.ps b
+      ∧ (compileBegin isFn cb c.body).run gs0 = .ok ((b, tl), gs1) ∧ cb.scopes = 0
+      ∧ FnameOk self cb ∧ FfList true self c.body = true ∧ GenOk gs0 gs1 s) :
+    RelF (mapWith m s.fns.length rs.clos.length) (afterClosure s t) { rs with clos := rs.clos ++ [c] } env
+      ∧ GoodFn (mapWith m s.fns.length rs.clos.length) (afterClosure s t) { rs with clos := rs.clos ++ [c] } s.fns.length
+      ∧ MExt s m (mapWith m s.fns.length rs.clos.length) ∧ RExt rs { rs with clos := rs.clos ++ [c] }
+      ∧ FrameF s (afterClosure s t) ∧ mapWith m s.fns.length rs.clos.length s.fns.length = rs.clos.length
+      ∧ fnOf (afterClosure s t) s.curfunc = fnOf s s.curfunc := by
+  obtain ⟨k, hch, hfc⟩ := hrel.ctx
+  have hmain : mainFn < s.fns.length := by
+    have := fns_ne_nil_of_lt hfc.lt
+    cases hs : s.fns with
+    | nil => exact absurd hs this
+    | cons _ _ => simp [mainFn]
+  have hfns1 : (afterClosure s t).fns = s.fns ++ [closureObj s t] := rfl
+  have hfo1 : ∀ id, id < s.fns.length → fnOf (afterClosure s t) id = fnOf s id := fun id hid => by
+    unfold fnOf; rw [hfns1]; simp only [List.getD_eq_getElem?_getD, List.getElem?_append_left hid]
+  have hfl1 : s.fns.length ≤ (afterClosure s t).fns.length := by rw [hfns1]; simp
+  have hk01 : FnsKeep s (afterClosure s t) := FnsKeep.of_eq hfl1 hfo1 hmain
+  have hclos1 : ClosExt rs { rs with clos := rs.clos ++ [c] } := fun i c' hc' => by
+    show (rs.clos ++ [c])[i]? = some c'
+    rw [List.getElem?_append_left (lt_of_getElem?_some hc')]; exact hc'
+  have hmext : MExt s m (mapWith m s.fns.length rs.clos.length) := fun id hid => by
+    unfold mapWith; rw [if_neg (by omega)]
+  have hmv : mapWith m s.fns.length rs.clos.length s.fns.length = rs.clos.length := by unfold mapWith; rw [if_pos rfl]
+  refine ⟨hrel.grow rfl rfl rfl rfl hrel.trace hk01 rfl rfl hclos1 hmext,
+    GoodFn.create hrel t c hmain hcenv hrest hnd hps hbody hparams hnargs hvar huser htlt htclo hcode _ _ rfl rfl,
+    hmext, ⟨fun i fr hf => ⟨fr, hf, rfl⟩, hclos1⟩,
+    ⟨⟨rfl, rfl, rfl, rfl, hfl1, hfo1, Nat.le_refl _, fun _ _ => rfl⟩, Nat.le_refl _, fun _ _ => rfl⟩, hmv, hfo1 _ hfc.lt⟩
+
+theorem simF_fn {n : Nat} {self : String} (ps : List String) (body : List Expr)
+    (hform : Ff true self (.fn ps none body) = true) (isFn : Nat → Bool) (c : Ctx) (gs : GS)
+    (r : (List Instr × Bool) × GS) (hc : (compile isFn c (.fn ps none body)).run gs = .ok r)
+    {m : Nat → Nat} {s : St} {rs : Ref.St} {env : Nat} {pre post : List Instr}
+    (hrel : RelF m s rs env) (hgen : GenOk gs r.2 s) (hseg : Seg s pre r.1.1 post) :
+    SimF r.1.1 m s rs env (Ref.eval (n + 1) (.fn ps none body) env rs) := by
+  rw [Ff] at hform
+  simp only [Bool.and_eq_true, Option.isNone_none, decide_eq_true_eq, Bool.not_eq_true', List.isEmpty_eq_false_iff,
+    List.all_eq_true, true_and] at hform
+  obtain ⟨⟨⟨hnd, hps⟩, hbody⟩, hff⟩ := hform
+  obtain ⟨b, tl, g2, hb, _, hk2⟩ := compileBegin_total_Ff true "" body hbody hff isFn (anonCtx c gs)
+    (gsAlloc isFn gs s!"__anon{gs.fns.length}" ps) (anonCtx_funcname c gs)
+  have hceq := compile_fn_eq isFn c ps body gs g2 b tl hb
+  rw [hceq] at hc
+  injection hc with hc
+  subst hc
+  simp only at hseg hgen ⊢
+  obtain ⟨hTd, htl, hgenb⟩ := tmpl_facts isFn gs g2 _ ps b s hk2.1 hgen
+  obtain ⟨rel1, hgood, hmext, hrext, hfr, hmv, hfo⟩ := closure_step hrel gs.fns.length
+    { ps := ps, rest := none, body := body, env := env } rfl rfl hnd hps hbody
+    (by rw [hTd]; rfl) (by rw [hTd]; rfl) (by rw [hTd]; rfl) (by rw [hTd]; rfl) htl
+    (by rw [hTd]; show newClosing isFn gs.live = [some 0]; rw [hgen.live]; exact newClosing_single _)
+    ⟨b, tl, isFn, anonCtx c gs, _, g2, "", by rw [hTd], hb, rfl, anonCtx_funcname c gs, hff, hgenb⟩
+  rw [Ref.eval]
+  have a0 : At s pre (.createClosure gs.fns.length) post := hseg.head
+  refine ⟨afterClosure s gs.fns.length, _, .fn s.fns.length,
+    (Reach.step a0 (fun f => exec_createClosure f _ s)).toX, ⟨hfo, by show s.pc + 1 = _; simp, rfl⟩, ?_, rel1, hmext, hrext,
+    hfr, valIn_fn hgood⟩
+  show Val.fn rs.clos.length = Val.fn _
+  rw [hmv]
+
+theorem simF_defn {n : Nat} {self : String} (name : String) (ps : List String) (body : List Expr)
+    (hform : Ff true self (.defn name ps none body) = true) (isFn : Nat → Bool) (c : Ctx) (gs : GS)
+    (r : (List Instr × Bool) × GS) (hc : (compile isFn c (.defn name ps none body)).run gs = .ok r)
+    {m : Nat → Nat} {s : St} {rs : Ref.St} {env : Nat} {pre post : List Instr}
+    (hrel : RelF m s rs env) (hgen : GenOk gs r.2 s) (hseg : Seg s pre r.1.1 post) :
+    SimF r.1.1 m s rs env (Ref.eval (n + 1) (.defn name ps none body) env rs) := by
+  rw [Ff] at hform
+  simp only [Bool.and_eq_true, Option.isNone_none, bne_iff_ne, ne_eq, decide_eq_true_eq, Bool.not_eq_true',
+    List.isEmpty_eq_false_iff, List.all_eq_true, true_and] at hform
+  obtain ⟨⟨⟨⟨⟨hname, hne⟩, hnd⟩, hps⟩, hbody⟩, hff⟩ := hform
+  obtain ⟨b, tl, g2, hb, _, hk2⟩ := compileBegin_total_Ff true name body hbody hff isFn (bodyCtx c gs name ps body)
+    (gsAlloc isFn gs name ps) (bodyCtx_funcname c gs name ps body)
+  have hceq := compile_defn_eq isFn c name ps body gs g2 b tl hne hb
+  rw [hceq] at hc
+  injection hc with hc
+  subst hc
+  simp only at hseg hgen ⊢
+  obtain ⟨hTd, htl, hgenb⟩ := tmpl_facts isFn gs g2 _ ps b s hk2.1 hgen
+  obtain ⟨rel1, hgood, hmext, hrext, hfr01, hmv, hfo⟩ := closure_step hrel gs.fns.length
+    { ps := ps, rest := none, body := body, env := env } rfl rfl hnd hps hbody
+    (by rw [hTd]; rfl) (by rw [hTd]; rfl) (by rw [hTd]; rfl) (by rw [hTd]; rfl) htl
+    (by rw [hTd]; show newClosing isFn gs.live = [some 0]; rw [hgen.live]; exact newClosing_single _)
+    ⟨b, tl, isFn, bodyCtx c gs name ps body, _, g2, name, by rw [hTd], hb, rfl, bodyCtx_funcname c gs name ps body,
+      hff, hgenb⟩
+  -- the reference side
+  rw [Ref.eval]
+  show SimF _ m s rs env
+    (match Ref.define { rs with clos := rs.clos ++ [{ ps := ps, rest := none, body := body, env := env }] } env name
+        (.fn ((rs.clos ++ [({ ps := ps, rest := none, body := body, env := env } : Ref.Clos)]).length - 1)) with
+     | some s' => .ok .nil s'
+     | none => .err { rs with clos := rs.clos ++ [{ ps := ps, rest := none, body := body, env := env }] })
+  have hcid : (rs.clos ++ [({ ps := ps, rest := none, body := body, env := env } : Ref.Clos)]).length - 1 = rs.clos.length := by
+    simp
+  rw [hcid]
+  generalize hrs1 : ({ rs with clos := rs.clos ++ [{ ps := ps, rest := none, body := body, env := env }] } : Ref.St) = rs₁
+    at rel1 hgood hrext
+  -- createClosure
+  have a0 : At s pre (.createClosure gs.fns.length) ([.popStackPutEnv name, .push .nil] ++ post) :=
+    ⟨hseg.user, by rw [hseg.code]; simp, hseg.pc⟩
+  have r0 : ReachX s (afterClosure s gs.fns.length) := (Reach.step a0 (fun f => exec_createClosure f _ s)).toX
+  generalize hs1 : afterClosure s gs.fns.length = s₁ at r0 rel1 hgood hfr01 hfo
+  have hcur1 : s₁.curfunc = s.curfunc := hfr01.curfunc
+  -- popStackPutEnv name
+  have a1 : At s₁ (pre ++ [.createClosure gs.fns.length]) (.popStackPutEnv name) ([.push .nil] ++ post) :=
+    ⟨by rw [hcur1, hfo]; exact hseg.user, by rw [hcur1, hfo, hseg.code]; simp,
+     by subst hs1; show s.pc + 1 = _; rw [hseg.pc]; simp⟩
+  have hd1 : s₁.data = some (.fn s.fns.length) :: s.data := by subst hs1; rfl
+  have hp := psp_stepF a1 hd1 rel1 hname (valIn_fn hgood)
+  have htrfn : trf (mapWith m s.fns.length rs.clos.length) (.fn s.fns.length) = .fn rs.clos.length := by
+    show Val.fn (mapWith m s.fns.length rs.clos.length s.fns.length) = _; rw [hmv]
+  rw [htrfn] at hp
+  obtain ⟨k1, hch1, hfc1⟩ := rel1.ctx
+  have hcurlt : s₁.curfunc < s₁.fns.length := hfc1.lt
+  cases hdef : Ref.define rs₁ env name (.fn rs.clos.length) with
+  | none =>
+    rw [hdef] at hp
+    simp only
+    exact FailsX.of_reach r0 hp.toX
+  | some rs₂ =>
+    rw [hdef] at hp
+    obtain ⟨r2, rel2, ext2⟩ := hp
+    simp only
+    generalize hs2 : (s₁.jmp (s₁.pc + 1) s.data).bind env name (.fn s.fns.length) = s₂ at r2 rel2
+    have hfr12 : FrameF s₁ s₂ := by subst hs2; exact (FrameF.jmp _ _ _).trans (FrameF.bind _ _ _ _)
+    have hfn2 : fnOf s₂ s₂.curfunc = fnOf s s.curfunc := by
+      rw [hfr12.curfunc, hfr12.fns _ hcurlt, hcur1, hfo]
+    have a2 : At s₂ (pre ++ [.createClosure gs.fns.length, .popStackPutEnv name]) (.push .nil) post := by
+      refine ⟨by rw [hfn2]; exact hseg.user, by rw [hfn2, hseg.code]; simp, ?_⟩
+      subst hs2; subst hs1
+      show s.pc + 1 + 1 = _; rw [hseg.pc]; simp; omega
+    have r3 := (reach_push a2).toX
+    refine ⟨s₂.jmp (s₂.pc + 1) (some .nil :: s₂.data), mapWith m s.fns.length rs.clos.length, .nil,
+      ((r0.trans r2.toX).trans r3), ⟨hfn2, ?_, ?_⟩, rfl, rel2.jmp _ _, hmext, hrext.trans ext2,
+      (hfr01.trans hfr12).trans (FrameF.jmp _ _ _), vOk_lit .nil (fun _ _ _ => rfl)⟩
+    · subst hs2; subst hs1
+      show s.pc + 1 + 1 + 1 = _; simp; omega
+    · subst hs2; subst hs1; rfl
+
+/-! ## The expression step, the induction -/
+
 theorem fclaimE_succ {n : Nat} (hE : FClaimE n) (hB : FClaimB n) (hC : FClaimC n) (hA : FClaimA n) (hU : FClaimU n) :
     FClaimE (n + 1) := by
-  intro self e he isFn c gs r hc hfn m s rs env pre post hrel hseg
+  intro fnOk self e he isFn c gs r hc hfn m s rs env pre post hrel hgen hseg
   cases e with
   | int x =>
     rw [compile] at hc; simp only [g_pure_ok] at hc; subst hc
@@ -1302,7 +1378,7 @@ theorem fclaimE_succ {n : Nat} (hE : FClaimE n) (hB : FClaimB n) (hC : FClaimC n
     | cons e0 es0 =>
       rw [compile] at hc
       · rw [Ref.eval]
-        exact hB self (e0 :: es0) (by simp) he isFn c gs r hc hfn m s rs env pre post hrel hseg
+        exact hB fnOk self (e0 :: es0) (by simp) he isFn c gs r hc hfn m s rs env pre post hrel hgen hseg
       · intro hh; cases hh
   | def_ x e1 =>
     rw [Ff] at he
@@ -1311,8 +1387,8 @@ theorem fclaimE_succ {n : Nat} (hE : FClaimE n) (hB : FClaimB n) (hC : FClaimC n
     simp only [g_bind_ok, g_pure_ok] at hc
     obtain ⟨ra, gs1, ha, rfl⟩ := hc
     rw [Ref.eval]
-    have ih := hE self e1 he.2 isFn _ gs (ra, gs1) ha hfn m s rs env pre ([.dup, .popStackPutEnv x] ++ post) hrel
-      (hseg.refocus (by simp))
+    have ih := hE fnOk self e1 he.2 isFn _ gs (ra, gs1) ha hfn m s rs env pre ([.dup, .popStackPutEnv x] ++ post) hrel
+      hgen (hseg.refocus (by simp))
     cases h1 : Ref.eval n e1 env rs with
     | ok v rs1 =>
       rw [h1] at ih
@@ -1330,8 +1406,8 @@ theorem fclaimE_succ {n : Nat} (hE : FClaimE n) (hB : FClaimB n) (hC : FClaimC n
     simp only [g_bind_ok, g_pure_ok] at hc
     obtain ⟨ra, gs1, ha, rfl⟩ := hc
     rw [Ref.eval]
-    have ih := hE self e1 he.2 isFn _ gs (ra, gs1) ha hfn m s rs env pre ([.dup, .update x] ++ post) hrel
-      (hseg.refocus (by simp))
+    have ih := hE fnOk self e1 he.2 isFn _ gs (ra, gs1) ha hfn m s rs env pre ([.dup, .update x] ++ post) hrel
+      hgen (hseg.refocus (by simp))
     cases h1 : Ref.eval n e1 env rs with
     | ok v rs1 =>
       rw [h1] at ih
@@ -1348,34 +1424,51 @@ theorem fclaimE_succ {n : Nat} (hE : FClaimE n) (hB : FClaimB n) (hC : FClaimC n
     rw [compile] at hc
     simp only [g_bind_ok, g_pure_ok] at hc
     obtain ⟨rd, gs1, hd, as, gs2, has, rfl⟩ := hc
+    have hk1 := compile_keep_Ff he.2 hd hfn
+    have hk2 := compileArms_keep_Ff he.1 has hfn
     rw [Ref.eval]
-    exact hC self arms d he.1 he.2 isFn c gs1 (as, gs2) gs (rd, gs1) has hd hfn m s rs env pre post hrel hseg
+    exact hC fnOk self arms d he.1 he.2 isFn c gs1 (as, gs2) gs (rd, gs1) has hd hfn m s rs env pre post hrel
+      (fun h => (hgen h).rest hk1.1) (fun h => (hgen h).first hk2.1) hseg
   | call f args =>
     cases f with
     | sym h =>
       rw [Ff] at he
       simp only [Bool.and_eq_true] at he
       rw [compile] at hc
-      have hne := ff_call_ne hfn he.1.1.1 he.1.1.2
+      have hne := ff_call_ne hfn he.1.1.1 he.1.1.2 he.1.2
       simp only [hne, Bool.and_false, Bool.false_eq_true, if_false, g_pure_ok] at hc
       subst hc
+      have hok : okSym h = true := by
+        have := he.1.2; unfold okHead at this; simp only [Bool.and_eq_true] at this; exact this.1
       cases n with
       | zero =>
         rw [Ref.eval, Ref.eval]; trivial
-      | succ k => exact simF_call hA hU he.1.2 he.2 hrel hseg
+      | succ k => exact simF_call hA hU hok he.2 hrel hseg
     | _ => simp [Ff] at he
-  | and_ _ | or_ _ | let_ _ _ _ | newScope _ | arr _ | for_ _ _ _ _ _ | break_ _ | continue_ _ | fn _ _ _
-  | defn _ _ _ _ | assign _ _ | bad _ => simp [Ff] at he
-
-/-! ## The induction -/
+  | fn ps rest body =>
+    have hfo : fnOk = true ∧ rest = none := by
+      rw [Ff] at he
+      simp only [Bool.and_eq_true, Option.isNone_iff_eq_none] at he
+      exact ⟨he.1.1.1.1.1, he.1.1.1.1.2⟩
+    obtain ⟨rfl, rfl⟩ := hfo
+    exact simF_fn ps body he isFn c gs r hc hrel (hgen rfl) hseg
+  | defn name ps rest body =>
+    have hfo : fnOk = true ∧ rest = none := by
+      rw [Ff] at he
+      simp only [Bool.and_eq_true, Option.isNone_iff_eq_none] at he
+      exact ⟨he.1.1.1.1.1.1.1, he.1.1.1.1.1.1.2⟩
+    obtain ⟨rfl, rfl⟩ := hfo
+    exact simF_defn name ps body he isFn c gs r hc hrel (hgen rfl) hseg
+  | and_ _ | or_ _ | let_ _ _ _ | newScope _ | arr _ | for_ _ _ _ _ _ | break_ _ | continue_ _
+  | assign _ _ | bad _ => simp [Ff] at he
 
 theorem fclaims_zero : FClaimE 0 ∧ FClaimB 0 ∧ FClaimC 0 ∧ FClaimA 0 ∧ FClaimU 0 := by
   refine ⟨?_, ?_, ?_, ?_, ?_⟩
-  · intro self e he isFn c gs r hc hfn m s rs env pre post hrel hseg
+  · intro fnOk self e he isFn c gs r hc hfn m s rs env pre post hrel hgen hseg
     rw [Ref.eval]; trivial
-  · intro self es hne hes isFn c gs r hc hfn m s rs env pre post hrel hseg
+  · intro fnOk self es hne hes isFn c gs r hc hfn m s rs env pre post hrel hgen hseg
     rw [Ref.evalBegin]; trivial
-  · intro self arms d harms hd isFn c gs r gs0 rd hc hcd hfn m s rs env pre post hrel hseg
+  · intro fnOk self arms d harms hd isFn c gs r gs0 rd hc hcd hfn m s rs env pre post hrel hgen hgend hseg
     rw [Ref.evalCond]; trivial
   · intro args hargs fo hfo i m s rs env hrel
     rw [Ref.evalArgs]; trivial
@@ -1388,12 +1481,20 @@ theorem fclaims : ∀ n, FClaimE n ∧ FClaimB n ∧ FClaimC n ∧ FClaimA n ∧
     obtain ⟨hE, hB, hC, hA, hU⟩ := fclaims n
     exact ⟨fclaimE_succ hE hB hC hA hU, fclaimB_succ hE hB, fclaimC_succ hE hC, fclaimA_succ hE hA, fclaimU_succ hB⟩
 
-/-- **Segment lemma for F2a expressions.** -/
-theorem segment_Ff (self : String) (e : Expr) (he : Ff self e = true) (isFn : Nat → Bool) (c : Ctx)
-    (hfn : c.funcname = self ∨ c.funcname = "") (gs : GS) (r : (List Instr × Bool) × GS)
+/-- **Segment lemma for F2 expressions.** -/
+theorem segment_Ff (fnOk : Bool) (self : String) (e : Expr) (he : Ff fnOk self e = true) (isFn : Nat → Bool) (c : Ctx)
+    (hfn : FnameOk self c) (gs : GS) (r : (List Instr × Bool) × GS)
     (hc : (compile isFn c e).run gs = .ok r) (m : Nat → Nat) (s : St) (rs : Ref.St) (env : Nat) (pre post : List Instr)
-    (hrel : RelF m s rs env) (hseg : Seg s pre r.1.1 post) (n : Nat) :
+    (hrel : RelF m s rs env) (hgen : fnOk = true → GenOk gs r.2 s) (hseg : Seg s pre r.1.1 post) (n : Nat) :
     SimF r.1.1 m s rs env (Ref.eval n e env rs) :=
-  (fclaims n).1 self e he isFn c gs r hc hfn m s rs env pre post hrel hseg
+  (fclaims n).1 fnOk self e he isFn c gs r hc hfn m s rs env pre post hrel hgen hseg
+
+/-- … and for statement lists (a program text, a function body) -/
+theorem segment_Ff_begin (fnOk : Bool) (self : String) (es : List Expr) (hne : es ≠ []) (he : FfList fnOk self es = true)
+    (isFn : Nat → Bool) (c : Ctx) (hfn : FnameOk self c) (gs : GS) (r : (List Instr × Bool) × GS)
+    (hc : (compileBegin isFn c es).run gs = .ok r) (m : Nat → Nat) (s : St) (rs : Ref.St) (env : Nat)
+    (pre post : List Instr) (hrel : RelF m s rs env) (hgen : fnOk = true → GenOk gs r.2 s) (hseg : Seg s pre r.1.1 post)
+    (n : Nat) : SimF r.1.1 m s rs env (Ref.evalBegin n es env rs) :=
+  (fclaims n).2.1 fnOk self es hne he isFn c gs r hc hfn m s rs env pre post hrel hgen hseg
 
 end ZygoVerif.Sim
